@@ -190,9 +190,9 @@ theorem history_preserves_Inv {env : Env} (hv : env.v.fixAlias = false) (hinj : 
 
 def apartLayersB (env : Env) (st : Store) (ls : List Layer) (r : CreateReq) : Bool :=
   ls.all (fun a =>
-    !(a.media == .template || a.media == .system || a.media == .params) || env.v.fixKeep ||
-    env.inUse st a.digest ||
-    (ls.all (fun x => x.media == a.media || x.digest.key != a.digest.key) &&
+    !(a.media == .template || a.media == .system || a.media == .params || a.media == .messages) ||
+    env.v.fixKeep || env.inUse st a.digest ||
+    (a.media != .messages && ls.all (fun x => x.media == a.media || x.digest.key != a.digest.key) &&
      (earlier r a.media).all (fun c => env.hash c != a.digest.key)))
 
 theorem apart_of_B {env : Env} {st : Store} {ls : List Layer} {r : CreateReq}
@@ -203,11 +203,11 @@ theorem apart_of_B {env : Env} {st : Store} {ls : List Layer} {r : CreateReq}
   have := h a ha
   simp only [Bool.or_eq_true, Bool.not_eq_true', Bool.and_eq_true, List.all_eq_true, beq_iff_eq, bne_iff_ne,
     ne_eq] at this
-  rcases this with ((hno | hk) | hu) | ⟨h1, h2⟩
-  · rcases hm with hm | hm | hm <;> simp [hm] at hno
+  rcases this with ((hno | hk) | hu) | ⟨⟨h0, h1⟩, h2⟩
+  · rcases hm with hm | hm | hm | hm <;> simp [hm] at hno
   · exact Or.inl hk
   · exact Or.inr (Or.inl hu)
-  · refine Or.inr (Or.inr ⟨fun x hx hxm => ?_, fun c hc => h2 c hc⟩)
+  · refine Or.inr (Or.inr ⟨h0, fun x hx hxm => ?_, fun c hc => h2 c hc⟩)
     rcases h1 x hx with h' | h'
     · exact absurd h' hxm
     · exact h'
@@ -291,11 +291,12 @@ theorem empty_Inv (env : Env) : Inv env Store.empty ∧ Canonical Store.empty :=
       names, names with suffixes — every name class is deleted, none is skipped;
     * a file `sha256-<k>` is there iff some readable manifest points to `k`, with the content it had after
       `fixBlobs` (see `fixBlobs_blob`: the old content, or that of a legacy `sha256:<k>` file renamed over it). -/
-theorem prune_exact_guarded (env : Env) (st : Store) (hc : Guard env st) (hnc : st.hasCorrupt = false) :
+theorem prune_exact_guarded (env : Env) (hnp : env.noPrune = false) (st : Store) (hc : Guard env st)
+    (hnc : st.hasCorrupt = false) :
     (pruneStartup env st).1.junk = [] ∧
     ∀ k, (pruneStartup env st).1.blob k = if st.keyReferenced k then (fixBlobs st).blob k else none := by
   unfold pruneStartup
-  simp only [hnc, Bool.false_eq_true, if_false]
+  simp only [hnp, hnc, Bool.false_eq_true, if_false]
   refine ⟨pruneLayers_junk_nil env (fixBlobs_junk_plain st), fun k => ?_⟩
   have hc' : Guard env (fixBlobs st) := hc.imp id (fun h n m hm => h n m hm)
   have hkr : (fixBlobs st).keyReferenced k = st.keyReferenced k := keyReferenced_congr rfl k
@@ -311,10 +312,11 @@ theorem prune_exact_guarded (env : Env) (st : Store) (hc : Guard env st) (hnc : 
       simp only [Digest.key] at this
       rw [hkr, hk] at this; cases this
 
-theorem prune_exact (env : Env) (st : Store) (hc : Canonical st) (hnc : st.hasCorrupt = false) :
+theorem prune_exact (env : Env) (hnp : env.noPrune = false) (st : Store) (hc : Canonical st)
+    (hnc : st.hasCorrupt = false) :
     (pruneStartup env st).1.junk = [] ∧
     ∀ k, (pruneStartup env st).1.blob k = if st.keyReferenced k then (fixBlobs st).blob k else none :=
-  prune_exact_guarded env st (Or.inr hc) hnc
+  prune_exact_guarded env hnp st (Or.inr hc) hnc
 
 /-- **`PruneDirectory` leaves no empty directory.**  After a completed delete and after a completed start-up prune
     every directory below manifests/ that is not on the way to a manifest is on the way to a stray regular file
@@ -326,16 +328,21 @@ theorem prune_no_empty_dir (st : Store) :
   have := (List.mem_filter.mp hd).2
   exact List.any_eq_true.mp this
 
-theorem pruneStartup_no_empty_dir (env : Env) (st : Store) (hnc : st.hasCorrupt = false) :
+theorem pruneStartup_no_empty_dir (env : Env) (hnp : env.noPrune = false) (st : Store)
+    (hnc : st.hasCorrupt = false) :
     ∀ d ∈ (pruneStartup env st).1.edirs, ∃ f ∈ (pruneStartup env st).1.treeFiles, isAncestor d f = true := by
   unfold pruneStartup
-  simp only [hnc, Bool.false_eq_true, if_false]
+  simp only [hnp, hnc, Bool.false_eq_true, if_false]
   exact prune_no_empty_dir (pruneLayers env (fixBlobs st))
 
-/-- when a manifest fails to parse the prune is skipped: only `fixBlobs` runs, every other file stays -/
-theorem prune_skipped (env : Env) (st : Store) (hnc : st.hasCorrupt = true) :
+/-- when a manifest fails to parse — or with OLLAMA_NOPRUNE set — the prune is skipped: only `fixBlobs` runs,
+    every other file stays -/
+theorem prune_skipped (env : Env) (st : Store) (hnc : st.hasCorrupt = true ∨ env.noPrune = true) :
     (pruneStartup env st).1 = fixBlobs st := by
-  unfold pruneStartup; simp [hnc]
+  unfold pruneStartup
+  rcases hnc with h | h
+  · by_cases hp : env.noPrune = true <;> simp [h, hp]
+  · simp [h]
 
 /-! ## F16a repaired: the same theorems WITHOUT any spelling guard -/
 
@@ -376,10 +383,11 @@ theorem history_preserves_Inv_fixed {env : Env} (hv : env.v.fixAlias = true) (hk
 
 /-- **Startup prune is exact — F16a repaired, no spelling guard** (only: every manifest parses, else the prune
     is skipped): no file of any non-blob name class is left, and exactly the referenced blobs remain. -/
-theorem prune_exact_fixed {env : Env} (hv : env.v.fixAlias = true) (st : Store) (hnc : st.hasCorrupt = false) :
+theorem prune_exact_fixed {env : Env} (hv : env.v.fixAlias = true) (hnp : env.noPrune = false) (st : Store)
+    (hnc : st.hasCorrupt = false) :
     (pruneStartup env st).1.junk = [] ∧
     ∀ k, (pruneStartup env st).1.blob k = if st.keyReferenced k then (fixBlobs st).blob k else none :=
-  prune_exact_guarded env st (Or.inl hv) hnc
+  prune_exact_guarded env hnp st (Or.inl hv) hnc
 
 /-! ## N1 repaired: a create that reports an error changes no manifest and damages nothing -/
 
@@ -626,7 +634,8 @@ theorem listed_can_be_shown {env : Env} (hinj : HashInj env) (st : Store) (hi : 
   rw [hall m.config (by simp [Manifest.all])]
   simp only [Bool.false_eq_true, if_false]
   have hany : (m.layers.any fun l =>
-      decide (l.media = .template ∨ l.media = .system ∨ l.media = .params ∨ l.media = .license) &&
+      decide (l.media = .template ∨ l.media = .system ∨ l.media = .params ∨ l.media = .license ∨
+          l.media = .messages) &&
         (st.blob l.digest.key).isNone) = false := by
     rw [List.any_eq_false]
     intro l hl
@@ -702,7 +711,7 @@ def rEnv : Env := { wEnv with v := .repaired }
 def nm (ns m : String) : Name := ⟨"registry.ollama.ai", ns, m, "latest"⟩
 def gG : Bytes := [71]
 def ch0 : Choice := ⟨[], [], false⟩
-def mk (n : Name) (f : Form) : Op := .create ⟨n, none, [⟨f, "G"⟩], none, none, [], []⟩
+def mk (n : Name) (f : Form) : Op := .create ⟨n, none, [⟨f, "G"⟩], none, none, [], [], []⟩
 
 /-- does some readable manifest point to a blob that is not there? -/
 def incompleteB (st : Store) : Bool :=
@@ -778,7 +787,7 @@ theorem F16b_breaks_NoTwins :
     error then success, `a` is now a manifest without layers (listed; `show` answers 404) and its blob is gone. -/
 theorem N1_create_continues_witness :
     let st := run wEnv Store.empty [(.upload ⟨.colon, "G"⟩ gG, ch0), (mk (nm "library" "a") .colon, ch0)]
-    let r := step wEnv st (.create ⟨nm "library" "a", some (nm "nobody" "missing"), [], none, none, [], []⟩) ch0
+    let r := step wEnv st (.create ⟨nm "library" "a", some (nm "nobody" "missing"), [], none, none, [], [], []⟩) ch0
     showAt wEnv st (nm "library" "a") = "h200" ∧ r.2 = ["e500", "s"] ∧
     ((r.1.readableAt (nm "library" "a")).map (·.layers)) = some [] ∧ r.1.blob "G" = none ∧
     (listed r.1).contains (nm "library" "a") = true ∧ showAt wEnv r.1 (nm "library" "a") = "h404" := by
@@ -790,7 +799,7 @@ theorem N1_create_continues_witness :
     with N2 repaired the same request is fine. -/
 theorem N2_witness :
     let st := run wEnv Store.empty [(.upload ⟨.colon, "GC"⟩ gChat, ch0)]
-    let req : CreateReq := ⟨nm "library" "a", none, [⟨.colon, "GC"⟩], none, some autoP, [], [("b", "2")]⟩
+    let req : CreateReq := ⟨nm "library" "a", none, [⟨.colon, "GC"⟩], none, some autoP, [], [("b", "2")], []⟩
     let r := step wEnv st (.create req) ch0
     let r' := step rEnv st (.create req) ch0
     r.2 = ["s"] ∧ (listed r.1).contains (nm "library" "a") = true ∧ incompleteB r.1 = true ∧
@@ -800,14 +809,14 @@ theorem N2_witness :
 
 theorem N2_breaks_NameInv :
     ¬ NameInv wEnv (step wEnv (run wEnv Store.empty [(.upload ⟨.colon, "GC"⟩ gChat, ch0)])
-      (.create ⟨nm "library" "a", none, [⟨.colon, "GC"⟩], none, some autoP, [], [("b", "2")]⟩) ch0).1 :=
+      (.create ⟨nm "library" "a", none, [⟨.colon, "GC"⟩], none, some autoP, [], [("b", "2")], []⟩) ch0).1 :=
   not_NameInv_of_incompleteB _ _ N2_witness.2.2.1
 
 /-- an explicit TEMPLATE equal to the auto-detected one while nothing stored references that blob (the
     history of the seeded change C04-B): fine on the real order (drop, then store) -/
 theorem auto_template_override_ok :
     let st := run wEnv Store.empty [(.upload ⟨.colon, "GC"⟩ gChat, ch0)]
-    let r := step wEnv st (.create ⟨nm "library" "a", none, [⟨.colon, "GC"⟩], some (autoT, true), none, [], []⟩) ch0
+    let r := step wEnv st (.create ⟨nm "library" "a", none, [⟨.colon, "GC"⟩], some (autoT, true), none, [], [], []⟩) ch0
     r.2 = ["s"] ∧ incompleteB r.1 = false ∧ (r.1.blob "T").isSome = true ∧
     showAt wEnv r.1 (nm "library" "a") = "h200" := by decide +kernel
 
@@ -856,7 +865,7 @@ theorem F16b_repaired_witness :
 /-- N1 repaired: the failed create reports only the error and `a` is as it was -/
 theorem N1_repaired_witness :
     let st := run rEnv Store.empty [(.upload ⟨.colon, "G"⟩ gG, ch0), (mk (nm "library" "a") .colon, ch0)]
-    let r := step rEnv st (.create ⟨nm "library" "a", some (nm "nobody" "missing"), [], none, none, [], []⟩) ch0
+    let r := step rEnv st (.create ⟨nm "library" "a", some (nm "nobody" "missing"), [], none, none, [], [], []⟩) ch0
     r.2 = ["e500"] ∧ r.1.man (nm "library" "a") = st.man (nm "library" "a") ∧
     (r.1.blob "G").isSome = true ∧ showAt rEnv r.1 (nm "library" "a") = "h200" := by decide +kernel
 
@@ -898,7 +907,7 @@ example :
     let st := run wEnv Store.empty
       [(.upload ⟨.colon, "G"⟩ gG, ch0), (mk (nm "library" "a") .colon, ch0),
        (.copy (nm "library" "a") (nm "library" "c"), ch0),
-       (.create ⟨nm "library" "a", some (nm "library" "a"), [], none, some [83], [], []⟩, ch0)]
+       (.create ⟨nm "library" "a", some (nm "library" "a"), [], none, some [83], [], [], []⟩, ch0)]
     incompleteB st = false ∧ st.readableNames.length = 2 ∧ st.keyReferenced "G" = true ∧
     (st.blob "S").isSome = true := by decide +kernel
 
@@ -935,7 +944,7 @@ example :
     let st := run wEnv Store.empty
       [(.upload ⟨.colon, "G"⟩ gG, ch0), (mk (nm "library" "a") .colon, ch0),
        (.copy (nm "library" "a") (nm "library" "c"), ch0),
-       (.create ⟨nm "library" "a", some (nm "library" "a"), [], none, some [83], [], []⟩, ch0)]
+       (.create ⟨nm "library" "a", some (nm "library" "a"), [], none, some [83], [], [], []⟩, ch0)]
     HashInj wEnv ∧ Inv wEnv st ∧ Canonical st := by
   exact ⟨wEnv_inj, history_preserves_Inv rfl wEnv_inj _ _ (runGuard_of_B _ _ (by decide +kernel))
     (empty_Inv wEnv).2 (empty_Inv wEnv).1⟩
@@ -945,12 +954,433 @@ example :
 example :
     let ok : List (Op × Choice) :=
       [(.upload ⟨.colon, "GC"⟩ gChat, ch0),
-       (.create ⟨nm "library" "a", none, [⟨.colon, "GC"⟩], some (autoT, true), none, [], []⟩, ch0),
-       (.create ⟨nm "library" "a", none, [⟨.colon, "GC"⟩], none, some autoT, [[77]], [("b", "2")]⟩, ch0)]
+       (.create ⟨nm "library" "a", none, [⟨.colon, "GC"⟩], some (autoT, true), none, [], [], []⟩, ch0),
+       (.create ⟨nm "library" "a", none, [⟨.colon, "GC"⟩], none, some autoT, [[77]], [("b", "2")], []⟩, ch0)]
     let bad : List (Op × Choice) :=
       [(.upload ⟨.colon, "GC"⟩ gChat, ch0),
-       (.create ⟨nm "library" "a", none, [⟨.colon, "GC"⟩], none, some autoP, [], [("b", "2")]⟩, ch0)]
+       (.create ⟨nm "library" "a", none, [⟨.colon, "GC"⟩], none, some autoP, [], [("b", "2")], []⟩, ch0)]
     runGuardB wEnv Store.empty ok = true ∧ incompleteB (run wEnv Store.empty ok) = false ∧
     runGuardB wEnv Store.empty bad = false ∧ runGuardB rEnv Store.empty bad = true := by decide +kernel
+
+/-! ## Round 7: the frame property along histories; OLLAMA_NOPRUNE; MESSAGE layers -/
+
+/-- `n` is not the (resolved) target of any operation of the history -/
+def Untargeted (env : Env) (n : Name) : Store → List (Op × Choice) → Prop
+  | _, [] => True
+  | st, (op, ch) :: rest => n ∉ targets env st op ch ∧ Untargeted env n (step env st op ch).1 rest
+
+/-- **Operations on other models never damage this one — along every history (repaired tree).** -/
+theorem history_frame_fixed {env : Env} (hv : env.v.fixAlias = true) (hk : env.v.fixKeep = true)
+    (hinj : HashInj env) (ops : List (Op × Choice)) (hlit : ∀ p ∈ ops, LitterOk env p.1) (st : Store)
+    (hi : Inv env st) (n : Name) (hu : Untargeted env n st ops) :
+    (run env st ops).man n = st.man n ∧
+    ∀ m, st.man n = some (.readable m) → ∀ l ∈ m.all, ∀ c,
+      st.blob l.digest.key = some c → (run env st ops).blob l.digest.key = some c := by
+  induction ops generalizing st with
+  | nil => exact ⟨rfl, fun _ _ _ _ _ h => h⟩
+  | cons p rest ih =>
+    obtain ⟨op, ch⟩ := p
+    obtain ⟨hn, hu'⟩ := hu
+    have hl0 : LitterOk env op := hlit (op, ch) (by simp)
+    have hi' := op_preserves_NameInv_fixed hv hk hinj st hi op ch hl0
+    obtain ⟨f1, f2⟩ := op_frame_fixed hv hk hinj st hi op ch hl0 n hn
+    obtain ⟨g1, g2⟩ := ih (fun q hq => hlit q (by simp [hq])) _ hi' hu'
+    refine ⟨g1.trans f1, fun m hm l hl c hc => ?_⟩
+    exact g2 m (f1.trans hm) l hl c (f2 m hm l hl c hc)
+
+/-- the download loop never removes or replaces a blob that was there -/
+theorem pullLayers_blob_mono (env : Env) (served : List (String × Bytes)) (ls : List Layer) (st : Store)
+    (k : String) (c : Bytes) (h : st.blob k = some c) : (pullLayers env st served ls).1.blob k = some c := by
+  induction ls generalizing st with
+  | nil => exact h
+  | cons l t ih =>
+    simp only [pullLayers]
+    cases hc : st.blob l.digest.key with
+    | some c0 => exact ih st h
+    | none =>
+      simp only
+      cases hs : aget served l.digest.hex with
+      | none => exact h
+      | some c1 =>
+        simp only
+        split
+        · apply ih
+          rw [blob_aset]
+          by_cases hk : k = l.digest.key
+          · rw [hk, hc] at h; cases h
+          · simp [hk, h]
+        · exact h
+
+/-- **OLLAMA_NOPRUNE: a pull deletes nothing.**  Whatever the registry serves, every blob file that was in the
+    store is still there with the same bytes afterwards (the layers of the replaced manifest included). -/
+theorem pull_noPrune_keeps_every_blob (env : Env) (hnp : env.noPrune = true) (st : Store) (name : Name)
+    (reg : Option Manifest) (served : List (String × Bytes)) :
+    ∀ k c, st.blob k = some c → (pullAt env st name reg served).1.blob k = some c := by
+  intro k c hkc
+  unfold pullAt
+  cases reg with
+  | none => exact hkc
+  | some m =>
+    simp only
+    have h1 := pullLayers_blob_mono env served m.all st k c hkc
+    cases hpl : pullLayers env st served m.all with
+    | mk st1 ok =>
+      rw [hpl] at h1
+      simp only at h1
+      cases ok with
+      | false => exact h1
+      | true =>
+        simp only
+        cases st.readableAt name with
+        | none => exact h1
+        | some mo => simp only [gcOld, hnp, if_true]; exact h1
+
+/-- **OLLAMA_NOPRUNE: the start-up sequence is `fixBlobs` only** — no blob file, no leftover and no directory is
+    removed, whatever the manifests look like. -/
+theorem startup_noPrune (env : Env) (hnp : env.noPrune = true) (st : Store) :
+    pruneStartup env st = (fixBlobs st, ["ok"]) := by
+  unfold pruneStartup; simp [hnp]
+
+/-- **OLLAMA_NOPRUNE: a create that replaces a model leaves the replaced manifest's layers alone**: after the
+    new manifest is written nothing more is removed (what `removeLayer` of create.go dropped before that is not
+    governed by the switch). -/
+theorem gcOld_noPrune (env : Env) (hnp : env.noPrune = true) (st : Store) (ls : List Layer) :
+    gcOld env st ls = st := by
+  unfold gcOld; simp [hnp]
+
+
+/-- the repaired toy world with OLLAMA_NOPRUNE set -/
+def npEnv : Env := { rEnv with noPrune := true }
+
+/-- re-create `a` from another file, litter, start-up sequence: with OLLAMA_NOPRUNE the replaced weights and the
+    leftover file stay (and the model is complete); without it the same history removes both -/
+theorem noPrune_witness :
+    let ops : List (Op × Choice) :=
+      [(.upload ⟨.colon, "G"⟩ gG, ch0), (.upload ⟨.colon, "GH"⟩ [71, 72], ch0), (mk (nm "library" "a") .colon, ch0),
+       (.create ⟨nm "library" "a", none, [⟨.colon, "GH"⟩], none, none, [], [], []⟩, ch0),
+       (.litter (.plain "sha256-ab-partial") [1], ch0), (.prune, ch0)]
+    let np := run npEnv Store.empty ops
+    let pr := run rEnv Store.empty ops
+    (np.blob "G").isSome = true ∧ (np.blob "GH").isSome = true ∧ np.junk.length = 1 ∧ incompleteB np = false ∧
+    pr.blob "G" = none ∧ (pr.blob "GH").isSome = true ∧ pr.junk = [] ∧ incompleteB pr = false := by decide +kernel
+
+/-- MESSAGE: `create a` with a message (role lower-cased by the request decoder), a copy `c`, then `create a from a`
+    with another message: the old messages blob stays while `c` uses it and goes with `c`; every listed model is
+    complete and can be shown throughout -/
+theorem messages_witness :
+    let m1 : Bytes := encodeMessages [("User", "hi")]
+    let c1 : Op := .create ⟨nm "library" "a", none, [⟨.colon, "G"⟩], none, none, [], [], [("User", "hi")]⟩
+    let c2 : Op := .create ⟨nm "library" "a", some (nm "library" "a"), [], none, none, [], [], [("user", "yo")]⟩
+    let s1 := run rEnv Store.empty [(.upload ⟨.colon, "G"⟩ gG, ch0), (c1, ch0), (.copy (nm "library" "a") (nm "library" "c"), ch0)]
+    let s2 := run rEnv s1 [(c2, ch0)]
+    let s3 := run rEnv s2 [(.delete (nm "library" "c"), ch0)]
+    m1 = strBytes "[{\"role\":\"user\",\"content\":\"hi\"}]\n" ∧
+    (s1.blob (rEnv.hash m1)).isSome = true ∧ (s2.blob (rEnv.hash m1)).isSome = true ∧ s3.blob (rEnv.hash m1) = none ∧
+    incompleteB s1 = false ∧ incompleteB s2 = false ∧ incompleteB s3 = false ∧
+    ((s2.readableAt (nm "library" "a")).map (fun m => (m.layers.filter (fun l => l.media = .messages)).length)) = some 1 ∧
+    showAt rEnv s2 (nm "library" "a") = "h200" ∧ showAt rEnv s2 (nm "library" "c") = "h200" ∧
+    showAt rEnv s3 (nm "library" "a") = "h200" := by decide +kernel
+
+/-- non-vacuity of `history_frame_fixed`: `c` is targeted by no operation of a history that re-creates and then
+    deletes the model it was copied from — and its manifest and blobs are indeed the same at the end -/
+example :
+    let st0 := run rEnv Store.empty
+      [(.upload ⟨.colon, "G"⟩ gG, ch0), (mk (nm "library" "a") .colon, ch0),
+       (.copy (nm "library" "a") (nm "library" "c"), ch0)]
+    let ops : List (Op × Choice) :=
+      [(.create ⟨nm "library" "a", some (nm "library" "a"), [], none, some [83], [], [], [("user", "hi")]⟩, ch0),
+       (.delete (nm "library" "a"), ch0), (.prune, ch0)]
+    Untargeted rEnv (nm "library" "c") st0 ops ∧ (run rEnv st0 ops).man (nm "library" "c") = st0.man (nm "library" "c") ∧
+    ((run rEnv st0 ops).blob "G").isSome = true ∧ (run rEnv st0 ops).readableNames.length = 1 := by
+  refine ⟨⟨by decide +kernel, by decide +kernel, by decide +kernel, trivial⟩, by decide +kernel, by decide +kernel,
+    by decide +kernel⟩
+
+/-! ### what each operation does to its OWN target (the manifest-level specification) -/
+
+/-- a copy that answers 200 leaves at the destination exactly the source's manifest file -/
+theorem copy_spec (st : Store) (s d : Name) (h : (copyAt st s d).2 = ["h200"]) :
+    (copyAt st s d).1.man d = st.man s ∧ (st.man s).isSome = true ∨ s = d := by
+  unfold copyAt at h ⊢
+  by_cases hsd : s = d
+  · exact Or.inr hsd
+  · simp only [hsd, if_false] at h ⊢
+    cases hm : st.man s with
+    | none => rw [hm] at h; simp at h
+    | some f =>
+      simp only
+      exact Or.inl ⟨by rw [setManifest_man]; simp, rfl⟩
+
+/-- a delete that answers 200 removes the target's manifest (and the model is no longer listed) -/
+theorem delete_spec (env : Env) (st : Store) (t : Name) (h : (deleteAt env st t).2 = ["h200"]) :
+    (deleteAt env st t).1.man t = none := by
+  unfold deleteAt at h ⊢
+  cases hm : st.man t with
+  | none => rw [hm] at h; simp at h
+  | some f =>
+    cases f with
+    | corrupt => rw [hm] at h; simp at h
+    | readable m =>
+      simp only
+      rw [man_congr (removeLayers_mans _ _ _)]
+      show (delManifest st t).man t = none
+      rw [delManifest_man]; simp
+
+/-- a pull that ends in success leaves at the target exactly the manifest the registry served -/
+theorem pull_spec (env : Env) (st : Store) (t : Name) (reg : Option Manifest) (served : List (String × Bytes))
+    (h : "s" ∈ (pullAt env st t reg served).2) :
+    ∃ m, reg = some m ∧ (pullAt env st t reg served).1.man t = some (.readable m) := by
+  unfold pullAt at h ⊢
+  cases reg with
+  | none => simp at h
+  | some m =>
+    refine ⟨m, rfl, ?_⟩
+    simp only at h ⊢
+    cases hpl : pullLayers env st served m.all with
+    | mk st1 ok =>
+      rw [hpl] at h
+      cases ok with
+      | false => simp at h
+      | true =>
+        simp only
+        cases st.readableAt t with
+        | none => simp only; rw [setManifest_man]; simp
+        | some mo => simp only; rw [man_congr (gcOld_mans _ _ _), setManifest_man]; simp
+
+/-- a create that ends in success leaves a readable manifest at the target whose model layers are those of the
+    base list (the FROM model's, or one per file) — N1 repaired -/
+theorem create_spec {env : Env} (hv : env.v.fixReturn = true) (st : Store) (r : CreateReq) (name : Name)
+    (frev : Bool) (h : "s" ∈ (createAt env st r name frev).2) :
+    ∃ m base, (baseLayers env st r frev).2.1 = some base ∧
+      (createAt env st r name frev).1.man name = some (.readable m) ∧ ml m.layers = ml (base.map (·.1)) := by
+  obtain ⟨e1, e2⟩ := baseLayers_events hv st r frev
+  unfold createAt at h ⊢
+  simp only at h ⊢
+  cases hbl : baseLayers env st r frev with
+  | mk st0 rest =>
+    obtain ⟨ob, ev⟩ := rest
+    rw [hbl] at h e1 e2
+    simp only at h e1 e2 ⊢
+    cases ob with
+    | none => exact absurd h (e2 rfl)
+    | some base =>
+      simp only at h ⊢
+      cases hcm : createModel env st0 name base r with
+      | mk st1 o =>
+        rw [hcm] at h
+        cases o with
+        | some err =>
+          simp only [e1 rfl, List.nil_append, List.mem_singleton] at h
+          exact absurd h.symm (createModel_err (by rw [hcm]))
+        | none =>
+          obtain ⟨m, hm, hml⟩ := createModel_manifest env st0 name base r (by rw [hcm])
+          rw [hcm] at hm
+          simp only at hm
+          refine ⟨m, base, rfl, ?_, hml⟩
+          simp only
+          cases st.readableAt name with
+          | none => exact hm
+          | some mo => simp only; rw [man_congr (gcOld_mans _ _ _)]; exact hm
+
+/-- non-vacuity of the four specification theorems on one history -/
+example :
+    let s0 := run rEnv Store.empty [(.upload ⟨.colon, "G"⟩ gG, ch0)]
+    let c := createAt rEnv s0 ⟨nm "library" "a", none, [⟨.colon, "G"⟩], none, none, [], [], []⟩ (nm "library" "a") false
+    let cp := copyAt c.1 (nm "library" "a") (nm "library" "c")
+    let d := deleteAt rEnv cp.1 (nm "library" "a")
+    let m : Manifest := ⟨⟨.config, ⟨.colon, "C"⟩, 1⟩, [⟨.model, ⟨.colon, "G"⟩, 1⟩]⟩
+    let p := pullAt rEnv d.1 (nm "library" "c") (some m) [("C", [67])]
+    "s" ∈ c.2 ∧ cp.2 = ["h200"] ∧ d.2 = ["h200"] ∧ "s" ∈ p.2 ∧ (p.1.blob "G").isSome = true := by decide +kernel
+
+
+/-! ## Round 7 (review): the request-level frame property, non-vacuity on the repaired tree, the size guard -/
+
+
+theorem equalFold_refl (n : Name) : n.equalFold n = true := by
+  rw [equalFold_iff]; exact ⟨rfl, rfl, rfl, rfl⟩
+
+/-- the repaired `getExistingName` answers with a name that differs from the requested one by letter case only -/
+theorem getExistingNameFixed_equalFold (es : List Name) (n : Name) :
+    (getExistingNameFixed es n).equalFold n = true := by
+  unfold getExistingNameFixed
+  split
+  · exact equalFold_refl n
+  · simp only
+    split
+    · rename_i e he
+      have := List.find?_some he
+      exact this
+    · rw [equalFold_iff]
+      exact ⟨firstPart_lower _ _ _, firstPart_lower _ _ _, firstPart_lower _ _ _, firstPart_lower _ _ _⟩
+
+/-- so does the pinned fold, for every iteration order -/
+theorem getExistingName_equalFold (ord : List Name) (n : Name) : (getExistingName ord n).equalFold n = true := by
+  obtain ⟨h1, h2, h3, h4⟩ := getExistingName_parts ord n
+  rw [equalFold_iff, h1, h2, h3, h4]
+  exact ⟨(resolvePart_spec _ ord _).1, (resolvePart_spec _ ord _).1, (resolvePart_spec _ ord _).1,
+    (resolvePart_spec _ ord _).1⟩
+
+/-- **The name an operation works on is the requested name up to letter case** (both variants of
+    `getExistingName`, every iteration order). -/
+theorem resolveName_equalFold (env : Env) (st : Store) (ord : List Name) (n : Name) :
+    (resolveName env st ord n).equalFold n = true := by
+  unfold resolveName
+  split
+  · exact getExistingNameFixed_equalFold _ n
+  · exact getExistingName_equalFold ord n
+
+/-- `ParseModelPath(name.DisplayShortest())` changes letter case only -/
+theorem displayReparse_equalFold (n : Name) : (displayReparse n).equalFold n = true := by
+  unfold displayReparse
+  split
+  · rename_i h
+    rw [equalFold_iff]
+    refine ⟨((foldEq_iff _ _).mp h).symm, ?_, rfl, rfl⟩
+    simp only
+    split
+    · rename_i h2; exact ((foldEq_iff _ _).mp h2).symm
+    · rfl
+  · exact equalFold_refl n
+
+theorem pullTarget_equalFold (env : Env) (n : Name) : (pullTarget env n).equalFold n = true := by
+  unfold pullTarget
+  split
+  · exact equalFold_refl n
+  · exact displayReparse_equalFold n
+
+/-- the name(s) IN THE REQUEST that an operation may write -/
+def requested : Op → List Name
+  | .create r => [r.name]
+  | .copy _ d => [d]
+  | .delete n => [n]
+  | .pull n _ _ => [n]
+  | .plant _ d => [d]
+  | .corrupt n => [n]
+  | .dashify n => [n]
+  | _ => []
+
+/-- every target of an operation is fold-equal to a name in the request -/
+theorem targets_equalFold (env : Env) (st : Store) (op : Op) (ch : Choice) :
+    ∀ t ∈ targets env st op ch, ∃ q ∈ requested op, t.equalFold q = true := by
+  intro t ht
+  cases op <;> simp only [targets, List.mem_singleton, List.not_mem_nil] at ht
+  all_goals subst ht
+  · exact ⟨_, by simp [requested], resolveName_equalFold env st _ _⟩
+  · exact ⟨_, by simp [requested], resolveName_equalFold env st _ _⟩
+  · exact ⟨_, by simp [requested], resolveName_equalFold env st _ _⟩
+  · exact ⟨_, by simp [requested], equalFold_trans (pullTarget_equalFold env _) (resolveName_equalFold env st _ _)⟩
+  · exact ⟨_, by simp [requested], equalFold_refl _⟩
+  · exact ⟨_, by simp [requested], equalFold_refl _⟩
+  · exact ⟨_, by simp [requested], equalFold_refl _⟩
+
+/-- **Operations on one model never damage another — stated on the REQUEST.**  A model whose name is not, up to
+    letter case, a name the request may write (create: the model; copy: the destination; delete / pull: the
+    model) keeps its manifest file and every blob it points to, whatever `getExistingName` resolves to. -/
+theorem op_frame_request_fixed {env : Env} (hv : env.v.fixAlias = true) (hk : env.v.fixKeep = true)
+    (hinj : HashInj env) (st : Store) (hi : Inv env st) (op : Op) (ch : Choice) (hlit : LitterOk env op)
+    (n : Name) (hn : ∀ q ∈ requested op, n.equalFold q = false) :
+    (step env st op ch).1.man n = st.man n ∧
+    ∀ m, st.man n = some (.readable m) → ∀ l ∈ m.all, ∀ c,
+      st.blob l.digest.key = some c → (step env st op ch).1.blob l.digest.key = some c := by
+  apply op_frame_fixed hv hk hinj st hi op ch hlit n
+  intro hmem
+  obtain ⟨q, hq, he⟩ := targets_equalFold env st op ch n hmem
+  rw [hn q hq] at he
+  cases he
+
+
+
+/-- the registry manifest of `pull_witness`: weights "G" and a config "C", truthful sizes -/
+def regM : Manifest := ⟨⟨.config, ⟨.colon, "C"⟩, 1⟩, [⟨.model, ⟨.colon, "G"⟩, 1⟩]⟩
+
+theorem rEnv_inj : HashInj rEnv := fun a b h => textHash_inj a b h
+
+/-- the guard on a pull (`PullOk ∧ PullShowOk`) is satisfiable: the honest registry of `pull_witness` -/
+theorem litterOk_pull_witness :
+    LitterOk rEnv (.pull (nm "library" "p") (some regM) [("G", gG), ("C", [67])]) := by
+  refine ⟨⟨by decide, ?_⟩, by decide, ?_⟩
+  · intro l hl c hc
+    simp only [regM, Manifest.all, List.cons_append, List.nil_append, List.mem_cons, List.not_mem_nil,
+      or_false] at hl
+    rcases hl with rfl | rfl
+    · have : c = gG := rEnv_inj c gG (by rw [hc]; decide)
+      subst this; rfl
+    · have : c = [67] := rEnv_inj c [67] (by rw [hc]; decide)
+      subst this; rfl
+  · intro l hl
+    have : l = ⟨.model, ⟨.colon, "G"⟩, 1⟩ := by
+      simpa [regM, ml] using hl
+    subst this
+    exact ⟨gG, by decide, by decide⟩
+
+/-- a five-operation history with an upload, a create, a SUCCESSFUL pull over another name, a re-create from the
+    pulled model and a delete: the hypotheses of `history_listed_complete_and_shown_fixed` (and of
+    `history_preserves_Inv_fixed`, `history_frame_fixed`) are met, from the empty store -/
+def histP : List (Op × Choice) :=
+  [(.upload ⟨.colon, "G"⟩ gG, ch0), (mk (nm "library" "a") .colon, ch0),
+   (.pull (nm "library" "p") (some regM) [("G", gG), ("C", [67])], ch0),
+   (.create ⟨nm "library" "a", some (nm "library" "p"), [], none, some [83], [], [], [("user", "hi")]⟩, ch0),
+   (.delete (nm "library" "p"), ch0)]
+
+theorem histP_guard : ∀ p ∈ histP, LitterOk rEnv p.1 := by
+  intro p hp
+  simp only [histP, List.mem_cons, List.not_mem_nil, or_false] at hp
+  rcases hp with rfl | rfl | rfl | rfl | rfl
+  · trivial
+  · trivial
+  · exact litterOk_pull_witness
+  · trivial
+  · trivial
+
+/-- **non-vacuity of the history theorems on the repaired tree**: instantiated on `histP` from the empty store —
+    and the result is not trivial: one model is listed at the end, it can be shown, the pull succeeded -/
+theorem history_listed_shown_instance :
+    (Inv rEnv (run rEnv Store.empty histP) ∧
+      ∀ n ∈ listed (run rEnv Store.empty histP), showAt rEnv (run rEnv Store.empty histP) n = "h200") ∧
+    listed (run rEnv Store.empty histP) = [nm "library" "a"] ∧
+    (step rEnv (run rEnv Store.empty (histP.take 2)) (histP.getD 2 (.prune, ch0)).1 ch0).2 = ["s"] :=
+  ⟨history_listed_complete_and_shown_fixed rfl rfl rfl rEnv_inj histP histP_guard Store.empty
+    (empty_Inv rEnv).1 (empty_ShowInv rEnv), by decide +kernel, by decide +kernel⟩
+
+/-- **the `PullOk` guard is needed (sizes)**: nothing in `PullModel` compares the sizes a registry manifest
+    states with what was downloaded — a registry that states a wrong size for honest bytes leaves a listed
+    model whose manifest records a size the blob does not have (the digest is right, `show` answers 200) -/
+theorem pull_size_witness :
+    let lying : Manifest := ⟨⟨.config, ⟨.colon, "C"⟩, 1⟩, [⟨.model, ⟨.colon, "G"⟩, 7⟩]⟩
+    let r := step rEnv Store.empty (.pull (nm "library" "p") (some lying) [("G", gG), ("C", [67])]) ch0
+    r.2 = ["s"] ∧ (listed r.1).contains (nm "library" "p") = true ∧ showAt rEnv r.1 (nm "library" "p") = "h200" ∧
+    (r.1.readableAt (nm "library" "p")).map (fun m => m.layers.map (fun l => (l.size, (r.1.blob l.digest.key).map List.length)))
+      = some [(7, some 1)] := by decide +kernel
+
+theorem pull_size_breaks_NameInv :
+    ¬ NameInv rEnv (step rEnv Store.empty (.pull (nm "library" "p")
+      (some ⟨⟨.config, ⟨.colon, "C"⟩, 1⟩, [⟨.model, ⟨.colon, "G"⟩, 7⟩]⟩) [("G", gG), ("C", [67])]) ch0).1 := by
+  intro h
+  have hm : (step rEnv Store.empty (.pull (nm "library" "p")
+      (some ⟨⟨.config, ⟨.colon, "C"⟩, 1⟩, [⟨.model, ⟨.colon, "G"⟩, 7⟩]⟩) [("G", gG), ("C", [67])]) ch0).1.man
+      (nm "library" "p") = some (.readable ⟨⟨.config, ⟨.colon, "C"⟩, 1⟩, [⟨.model, ⟨.colon, "G"⟩, 7⟩]⟩) := by
+    decide +kernel
+  obtain ⟨c, hc, hsz, _⟩ := h _ _ hm ⟨.model, ⟨.colon, "G"⟩, 7⟩ (by simp [Manifest.all])
+  have hb : (step rEnv Store.empty (.pull (nm "library" "p")
+      (some ⟨⟨.config, ⟨.colon, "C"⟩, 1⟩, [⟨.model, ⟨.colon, "G"⟩, 7⟩]⟩) [("G", gG), ("C", [67])]) ch0).1.blob "G"
+      = some gG := by decide +kernel
+  simp only [Digest.key] at hc
+  rw [hb] at hc
+  injection hc with e
+  subst e
+  simp [gG] at hsz
+
+
+/-- `failed_create_changes_nothing_fixed` with every guard discharged by the repairs: on the repaired tree a
+    create that reports an error changes no manifest and removes no referenced blob — no hypothesis on the store
+    beyond the invariant -/
+theorem failed_create_changes_nothing_repaired {env : Env} (hv : env.v.fixReturn = true)
+    (ha : env.v.fixAlias = true) (hk : env.v.fixKeep = true) (hinj : HashInj env) (st : Store) (hi : Inv env st)
+    (r : CreateReq) (ch : Choice) (hfail : ∃ e ∈ (step env st (.create r) ch).2, e ≠ "s") :
+    "s" ∉ (step env st (.create r) ch).2 ∧
+    (∀ n, (step env st (.create r) ch).1.man n = st.man n) ∧
+    ∀ n m, st.man n = some (.readable m) → ∀ l ∈ m.all, ∀ c,
+      st.blob l.digest.key = some c → (step env st (.create r) ch).1.blob l.digest.key = some c :=
+  failed_create_changes_nothing_fixed hv hinj st (Or.inl ha) hi r (Or.inl ha) ch
+    (apartOp_of_fixKeep hk st (.create r) ch) hfail
 
 end OllamaVerif.C04
